@@ -11,6 +11,13 @@ def iter_pre(ctx, binary):
     ctx.distinct_nontrivial += v["extra"].get("nontrivial_cases", 0)
 
 
+def tensor_pre(ctx, binary):
+    g = ctx.cfg("tensor", "TensorGen.cfg", {"MaxExt": ctx.q("3", "5")})
+    cases, n = ctx.gen("tensor", "TensorGen", g, "cases.ndjson", stage="gen", workers=8, timeout=ctx.q(900, 5000), coverage=False)
+    v = ctx.replay(binary, "tensor", cases)
+    ctx.distinct_nontrivial += v["extra"].get("nontrivial_cases", 0)
+
+
 SPECS = {
     "mint": {
         "module": "MintTrace",
@@ -81,6 +88,21 @@ SPECS = {
                  "(start, strict monotonicity as unsigned, sub/supermask of x, end value, length 2^free). Non-trivial = every element."),
         "assumptions": [
             "16-bit masks are covered up to a popcount bound (3^16 elements are beyond TLC's throughput); wider types sampled (seeded)",
+        ],
+    },
+    "tensor": {
+        "module": "TensorTrace",
+        "pre": tensor_pre,
+        "exhaustive": True,
+        "rule": ("S->I: TLC enumerates EVERY shape of rank 1..4 with extents 1..3 (thorough 1..5; 120 / 780 shapes) and emits per shape every "
+                 "valid multi-index with its row-major offset (Flat checked by TLC to be a bijection onto 0..count-1), every index out of "
+                 "range in exactly one dimension by 0..2 (flagged when its flattened offset is still inside the storage), zero-extent and "
+                 "length-mismatch constructor calls, every other shape of the same rank and element count, and the text rendering; the "
+                 "harness checks from_vec / from_slice / new+index_mut, get_index, iter, Index and IndexMut panics, constructor rejections, "
+                 "equality, Writable output and Tensor::read. I->S: IO round trips of random shapes (extents <= 5) and values through the "
+                 "real Writer and Reader (chunked source), judged by TensorTrace. Non-trivial = shape of rank >= 2."),
+        "assumptions": [
+            "element type i64; a panic is observed with catch_unwind",
         ],
     },
 }
